@@ -75,6 +75,12 @@ def apply_replace(text, count, old, new, log, where):
     if isinstance(old, tuple):
         pat = re.compile(old[1])
         found = list(pat.finditer(text))
+        if count == '?':
+            # optional rule: rewrites every occurrence, none is fine (used to route calls that the pinned tree does not
+            # contain, but a change may introduce, to a contract stub)
+            if found:
+                log.append({'where': where, 'old': 'regex ' + old[1], 'new': new, 'count': len(found)})
+            return pat.sub(new, text)
         if (count == '*' and not found) or (count != '*' and len(found) != int(count)):
             raise AnchorLost('%s: regex rule expected %s match(es) of %r, found %d' % (where, count, old[1], len(found)))
         log.append({'where': where, 'old': 'regex ' + old[1], 'new': new, 'count': len(found)})
@@ -226,7 +232,7 @@ def generate(template_path, repo):
                     replaces.append(('*', ('asserts',), '', []))
                 elif t.startswith('//@replace_re'):
                     # regex rewrite (python syntax, \\1 back-references); count may be `*` (one or more)
-                    m = re.match(r'//@replace_re\s+(\d+|\*)\s*::\s*(.*?)\s*==>\s*(.*)$', t)
+                    m = re.match(r'//@replace_re\s+(\d+|\*|\?)\s*::\s*(.*?)\s*==>\s*(.*)$', t)
                     if not m:
                         raise AnchorLost('bad replace_re directive: ' + t)
                     replaces.append((m.group(1), ('re', m.group(2)), m.group(3), []))
